@@ -72,6 +72,15 @@ def gen_episode(rng, strat=None, weights=None, depth=None, long=False):
                 g.end(outcome="200")
     else:
         W = 60
+        if len(g.names) > 1 and rng.random() < 0.35:
+            # the candidate set changes but not its size, with no pick in between: one backend goes into a window at
+            # the very moment another one's window runs out
+            a, b = rng.sample(g.names, 2)
+            g.eject(name=a, dur=SEC)
+            for _ in range(rng.randint(3, 9)):
+                g.request(outcome="200")
+            g.advance(SEC + 1)
+            g.eject(name=b, dur=3600 * SEC)
         for _ in range(min(W, 150) * (3 if long else 2)):
             g.request(outcome="200")
             if rng.random() < 0.02:
